@@ -351,6 +351,12 @@ where
     if machine_id > ZXST_MID_128K {
         return Err(SnapshotLoadError::MachineNotSupported.into());
     }
+    // Snapshot memory layout must match the emulated machine
+    let emulator_is_128k =
+        emulator.settings.machine == crate::zx::machine::ZXMachine::Sinclair128K;
+    if (machine_id == ZXST_MID_128K) != emulator_is_128k {
+        return Err(SnapshotLoadError::MachineNotSupported.into());
+    }
 
     // ZXST Block Header
     asset.seek(SeekFrom::Start(cursor_pos))?;
